@@ -142,6 +142,32 @@ def v_ids(p):
     p.oblige(f'ids.{name}.logits_mask', [], z3.BoolVal(not bad), kind='post', fn=f'models/{name}',
              detail='logits_mask is -inf exactly at {pad, bos, eos, oov} and 0 elsewhere, of length full_vocab_size '
                     f'(vocab_size 1, 7, 50; masked positions found: {bad})')
+    # the training loss ignores the padding label on EVERY path: each reduction over the token axis in train_loss is applied
+    # to the per-token loss AFTER it was multiplied by (targets != pad) (an option such as expected_length must not reach a
+    # stale, unmasked value)
+    tl = [n_ for n_ in ast.walk(fn) if isinstance(n_, ast.FunctionDef) and n_.name == 'train_loss']
+    lbad = []
+    if len(tl) != 1:
+      lbad.append('train_loss not found')
+    else:
+      masked = set()
+      for st in ast.walk(tl[0]):
+        tgt = val = None
+        if isinstance(st, ast.AugAssign) and isinstance(st.op, ast.Mult) and isinstance(st.target, ast.Name):
+          tgt, val = st.target.id, st.value
+        elif isinstance(st, ast.Assign) and len(st.targets) == 1 and isinstance(st.targets[0], ast.Name) and \
+            isinstance(st.value, ast.BinOp) and isinstance(st.value.op, ast.Mult):
+          tgt, val = st.targets[0].id, st.value
+        if tgt and 'targets != pad' in ast.unparse(val):
+          masked.add(tgt)
+      reds = [c for c in ast.walk(tl[0]) if isinstance(c, ast.Call) and ast.unparse(c.func) in ('jnp.sum', 'jnp.mean')]
+      if not masked or not reds:
+        lbad.append(f'no masked per-token loss / no reduction (masked names {sorted(masked)})')
+      for c in reds:
+        if not (c.args and isinstance(c.args[0], ast.Name) and c.args[0].id in masked):
+          lbad.append(f'line {c.lineno}: {ast.unparse(c)[:60]} reduces a value that is not the masked per-token loss')
+    p.oblige(f'ids.{name}.loss.pad', [], z3.BoolVal(not lbad), kind='post', fn=f'models/{name}',
+             detail=f'train_loss reduces only the per-token loss multiplied by (targets != pad): {lbad}')
     # the metrics are wired to the ids by NAME: every label tuple handed to a metric is built from pad / bos / eos / oov
     wired, loose = 0, []
     for c in ast.walk(fn):
